@@ -297,7 +297,7 @@ type Outcome struct {
 func Drive(s *Sink, done <-chan struct{}, ch Chooser, maxSteps int, snapshot bool) Outcome {
 	var out Outcome
 	for {
-		if !WaitQuiescent(20 * time.Second) {
+		if !WaitQuiescent(60 * time.Second) {
 			out.Timeout = true
 			return out
 		}
@@ -311,7 +311,7 @@ func Drive(s *Sink, done <-chan struct{}, ch Chooser, maxSteps int, snapshot boo
 		if len(ids) == 0 {
 			// quiescent, Run not returned, nothing to release: confirm once more after a pause
 			time.Sleep(20 * time.Millisecond)
-			if !WaitQuiescent(20 * time.Second) {
+			if !WaitQuiescent(60 * time.Second) {
 				out.Timeout = true
 				return out
 			}
